@@ -15,7 +15,7 @@
 // names: 0 = empty StringResolvable, 1 = "", 2..5 = "n1".."n4".
 // Answer: `ok <r> T[1=ids;..;5=ids] A[live ids] C[id:cnt:fld,..]`, script level
 // `ok out=[line|line] T[..] A[..] C[..]`; everything printed on Output/Warn/Error in order, warnings
-// canonicalised to !null !nil !cast !castnone !range.
+// canonicalised to !null !nil (also: cast of NIL to listener) !cast !range.
 #include <morfuse/Script/Context.h>
 #include <morfuse/Script/ScriptVariable.h>
 #include <morfuse/Script/ScriptException.h>
@@ -173,7 +173,7 @@ std::string takeOut()
             const std::string m = line.substr(w.size());
             if (m.find("applied to NULL listener") != std::string::npos) line = "!null";
             else if (m.find("applied to NIL") != std::string::npos) line = "!nil";
-            else if (m.find("Cannot cast 'none' to 'listener'") != std::string::npos) line = "!castnone";
+            else if (m.find("Cannot cast 'none' to 'listener'") != std::string::npos) line = "!nil";
             else if (m.find("Cannot cast 'array' to 'listener'") != std::string::npos) line = "!cast";
             else if (m.find("out of range") != std::string::npos) line = "!range";
             else line = "!other:" + m;
